@@ -3102,6 +3102,13 @@ class Mailbox:
         mbox._rebuild_index_dicts()
         mbox.sequences = defaultdict(set)
 
+        # The folder's .mh_sequences must not go on mentioning the messages
+        # that are gone. If the folder stays around (because it has inferior
+        # mailboxes) what is put in to it later gets their message numbers.
+        #
+        async with mbox.mh_sequences_lock, mbox.mailbox.lock_folder():
+            mbox.set_sequences_in_folder(mbox.sequences)
+
         # If the mailbox has any active clients we set their selected
         # mailbox to None. client.py will know if they try to do any
         # operations that require they have a mailbox selected that
